@@ -108,6 +108,13 @@ class Engine(EngineBase, ExprMixin, CompMixin, CallMixin, FuncMixin, StmtMixin):
             self.input_vars["$g:" + key] = V(t_, [z3.Const(f"G_{key}{('_' + s_) if s_ else ''}", so_)
                                                   for s_, so_ in comps(t_)])
         st.frames.append(Frame(module, cls, target, fdef, locs))
+        self._oneshot_depth = len(st.frames)
+        self._oneshot_sites = {}
+        if con.oneshot:
+            self._oneshot_sites = self.oneshot_scan(fdef, set(con.oneshot))
+            st.ghost["$oneshot"] = {n_: 0 for n_ in con.oneshot}
+            self.note_assumed("A-ITER-1: a function that hands a parameter to exactly one traversal (for / set / tuple / list / "
+                              "dict.fromkeys ...) behaves on a one-shot iterator yielding xs as on the sequence xs")
         for v in list(locs.values()):
             st = self.assume_wf(st, v)
         # distinct container parameters do not alias (A-OWN) – nothing to assume in the value model
